@@ -40,22 +40,22 @@ void library_site(char* out, size_t n) {
   size_t o = 0;
   int shown = 0;
   if (n) out[0] = 0;
-  for (int i = 1; i < c && shown < 3 && o + 130 < n; ++i) {
+  for (int i = 1; i < c && shown < 4 && o + 130 < n; ++i) {
     Dl_info di;
     if (!dladdr(pcs[i], &di) || !di.dli_sname) continue;
     int st = 0;
     char* dm = abi::__cxa_demangle(di.dli_sname, nullptr, nullptr, &st);
     const char* s = (st == 0 && dm) ? dm : di.dli_sname;
     if (strstr(s, "unifex::") && !strstr(s, "rt::")) {
-      // strip the argument list and template arguments for a stable, short name
+      // strip the argument list; keep (shortened) template arguments: they often name the culprit
       char buf[120];
       size_t k = 0;
       int depth = 0;
       for (const char* q = s; *q && k + 1 < sizeof buf; ++q) {
-        if (*q == '<') { ++depth; continue; }
-        if (*q == '>') { if (depth) --depth; continue; }
-        if (depth) continue;
-        if (*q == '(' ) break;
+        if (*q == '<') ++depth;
+        if (*q == '>') { if (depth) --depth; }
+        if (*q == '(' && depth == 0) break;
+        if (depth > 2) continue;  // drop deeply nested template noise
         buf[k++] = *q;
       }
       buf[k] = 0;
@@ -127,3 +127,6 @@ void crash_thread_init(Thread* t) {
 }
 
 }  // namespace rt
+
+// for harness debugging traces
+void kit_site(char* out, size_t n) { rt::library_site(out, n); }
